@@ -309,6 +309,6 @@ CLAUSES = [
                 "that miss the fill x wait x n_tries 0-3 x both verification "
                 "modes; non-trivial = some chip of the map missed a fill and "
                 "the map has >= 2 chips",
-           examples={"quick": 300, "thorough": 6000},
+           examples={"quick": 900, "thorough": 6000},
            shards={"quick": 8, "thorough": 16}),
 ]
